@@ -69,6 +69,7 @@ def acquirers(F):
     for b in F.fns():
         if b.calls(LOCK) or b.calls(r'::lock$'):
             direct.add(b.key)
+    direct |= lib.guard_accessors(F)
     A = set(direct)
     changed = True
     while changed:
@@ -80,9 +81,14 @@ def acquirers(F):
     return A, CG
 
 
+def is_accessor_call(F, c):
+    cal = lib.local_callee(F, c)
+    return c.is_(RNG_ACCESSOR) or (cal is not None and cal.key in lib.guard_accessors(F))
+
+
 def guard_local(body, c):
     """Local that owns the guard produced (directly or through expect/unwrap) by acquisition c."""
-    if c.is_(RNG_ACCESSOR):
+    if 'MutexGuard<' in body.local_ty(c.dest['l']):
         return c.dest['l']
     cur = c.dest['l']
     for _ in range(4):
@@ -136,8 +142,15 @@ def no_reacquire(ctx):
     A, CG = acquirers(F)
     n = 0
     locks = set()
+    accessors = lib.guard_accessors(F)
     for body in F.fns():
-        for c in body.calls(LOCK, RNG_ACCESSOR):
+        acq = [c for c in body.calls() if c.is_(LOCK) or is_accessor_call(F, c)]
+        for c in acq:
+            if body.key in accessors and c.is_(LOCK):
+                # the accessor's own lock() is the acquisition its callers perform; its guard is returned
+                n += 1
+                ctx.ok(body.key, 'guard accessor', 'returns the guard of its own lock()', c.where())
+                continue
             n += 1
             # which lock?
             if c.is_(LOCK):
@@ -156,7 +169,7 @@ def no_reacquire(ctx):
                 if cc is c:
                     continue
                 held.append(cc)
-                if cc.is_(LOCK, RNG_ACCESSOR):
+                if cc.is_(LOCK) or is_accessor_call(F, cc):
                     bad.append((cc, 'acquires the lock again'))
                     continue
                 cal = lib.local_callee(F, cc)
@@ -185,9 +198,10 @@ def no_reacquire(ctx):
     ctx.check(len(locks) <= 1, '-', 'single lock', 'several distinct mutexes are locked (%s): acquisition order must be checked' % sorted(locks),
               'one lock: %s' % sorted(locks), '')
     # guard escape
-    esc = [b.key for b in F.fns() if 'MutexGuard' in b.locals[0]['ty'] and b.kind != 'Closure']
-    ctx.check(esc == ['api::Covercrypt::rng'], '-', 'guard-escape', 'functions returning a MutexGuard: %s (only Covercrypt::rng may)' % esc,
-              'only Covercrypt::rng', '')
+    esc = [b.key for b in F.fns() if 'MutexGuard' in b.locals[0]['ty'] and b.kind != 'Closure' and b.is_pub]
+    ctx.check(esc == ['api::Covercrypt::rng'], '-', 'guard-escape', 'public functions returning a MutexGuard: %s (only Covercrypt::rng '
+              'may hand a guard to callers outside the crate)' % esc, 'only Covercrypt::rng (private lock helpers: %s)' % sorted(
+                  accessors - set(esc)), '')
 
 
 @rule('C19', 'witness-send-sync', tier='thorough')
